@@ -74,6 +74,12 @@ def execute(prop, trace):
     """Execute; any exception escaping the property module is a harness error.  A trace that carries a
     ``step_budget`` is executed under the logical clock: not returning within the budget is the violation
     ``termination:no-return-within-step-budget`` (bounded liveness, implied by every "returns ..." clause)."""
+    # the interpreter-wide PRNG belongs to the simulator too: penman draws from it only through
+    # penman.model.random (owned separately, seam S8), but a run must stay a pure function of its trace even
+    # if the code under test starts drawing from `random` somewhere else
+    import random as _random
+    from .rng import derive
+    _random.seed(derive(trace.get('seed', 0), 'global-prng', trace.get('run', 0)))
     budget = trace.get('step_budget')
     if not budget:
         res = prop.execute(trace)
